@@ -17,6 +17,26 @@ func batchOrigin(c *Ctx, use ssa.Instruction, v ssa.Value) (bool, string) {
 	okk := false
 	why := ""
 	backSlice(v, func(x ssa.Value) bool {
+		// a batch handed to a helper split off from an executor: judged at the helper's call sites
+		if p, ok := x.(*ssa.Parameter); ok && isNewHelper(p.Parent()) && p.Parent().Parent() == nil {
+			sites := c.familyCallSites(p.Parent())
+			all := len(sites) > 0
+			for i, q := range p.Parent().Params {
+				if q != p {
+					continue
+				}
+				for _, s := range sites {
+					if o, w := batchOrigin(c, s, s.Common().Args[i]); !o {
+						all = false
+						why = w
+					}
+				}
+			}
+			if all {
+				okk = true
+			}
+			return false
+		}
 		ex, ok := x.(*ssa.Extract)
 		if !ok || ex.Index != 0 {
 			return true
@@ -65,15 +85,15 @@ func propC05(c *Ctx, r *Report) {
 	e := newEraCtx(c, r)
 
 	// R1
-	r.rule("C05-R1/validated-origin", 4, "batches reaching the ledger come from the validating constructor")
+	r.rule("C05-R1/validated-origin", 3, "batches reaching the ledger come from the validating constructor")
 	for _, spec := range []struct{ fn, callee string; arg int }{
-		{"node.Pegnetd.ApplyTransactionBlock", "node.(*Pegnetd).applyTransactionBatch", 2},
-		{"node.Pegnetd.ApplyTransactionBlock", "pegnet.(*Pegnet).InsertTransactionBatchHolding", 2},
-		{"node.Pegnetd.ApplyTransactionBlock", "pegnet.(*Pegnet).InsertTransactionHistoryTxBatch", 3},
-		{"node.Pegnetd.ApplyTransactionBatchesInHolding", "node.(*Pegnetd).applyTransactionBatch", 2},
+		{"node.Pegnetd.ApplyTransactionBlock", "node.Pegnetd.applyTransactionBatch", 2},
+		{"node.Pegnetd.ApplyTransactionBlock", "pegnet.Pegnet.InsertTransactionBatchHolding", 2},
+		{"node.Pegnetd.ApplyTransactionBlock", "pegnet.Pegnet.InsertTransactionHistoryTxBatch", 3},
+		{"node.Pegnetd.ApplyTransactionBatchesInHolding", "node.Pegnetd.applyTransactionBatch", 2},
 	} {
 		f := c.fn(spec.fn)
-		for _, ci := range findCalls(f, spec.callee) {
+		for _, ci := range c.findCallsFam(f, spec.callee) {
 			okk, why := batchOrigin(c, ci, ci.Common().Args[spec.arg])
 			r.check(okk, "C05-R1/validated-origin", fmt.Sprintf("%s -> %s", fname(f), shortCallee(ci.Common())), c.ipos(ci), "argument is a validated batch", why)
 		}
@@ -133,14 +153,14 @@ func propC05(c *Ctx, r *Report) {
 		return ci
 	}
 	ntb := c.fn("fat2.NewTransactionBatch")
-	mustCallReturnErr(ntb, "fat2.(*TransactionBatch).UnmarshalJSON", "NewTransactionBatch unmarshals the entry content")
-	if ci := mustCallReturnErr(ntb, "fat2.(*TransactionBatch).Validate", "NewTransactionBatch validates"); ci != nil {
-		r.check(valuePath(ci.Common().Args[1]) == "height", "C05-R2/validation-chain", "Validate is given the constructor's height", c.ipos(ci), "", "Validate is given "+valuePath(ci.Common().Args[1])+ci.Common().Args[1].String())
+	mustCallReturnErr(ntb, "fat2.TransactionBatch.UnmarshalJSON", "NewTransactionBatch unmarshals the entry content")
+	if ci := mustCallReturnErr(ntb, "fat2.TransactionBatch.Validate", "NewTransactionBatch validates"); ci != nil {
+		r.check(ownParam(ci.Common().Args[1], ntb) >= 0, "C05-R2/validation-chain", "Validate is given the constructor's height", c.ipos(ci), "", "Validate is given "+valuePath(ci.Common().Args[1])+ci.Common().Args[1].String())
 	}
 	tv := c.fn("fat2.TransactionBatch.Validate")
-	mustCallReturnErr(tv, "fat2.(*TransactionBatch).ValidData", "Validate checks the data")
+	mustCallReturnErr(tv, "fat2.TransactionBatch.ValidData", "Validate checks the data")
 	if ci := mustCallReturnErr(tv, "fat2.TransactionBatch.ValidExtIDs", "Validate checks the signatures"); ci != nil {
-		r.check(valuePath(ci.Common().Args[1]) == "height", "C05-R2/validation-chain", "ValidExtIDs is given Validate's height", c.ipos(ci), "", "ValidExtIDs is given "+valuePath(ci.Common().Args[1]))
+		r.check(ownParam(ci.Common().Args[1], tv) >= 0, "C05-R2/validation-chain", "ValidExtIDs is given Validate's height", c.ipos(ci), "", "ValidExtIDs is given "+valuePath(ci.Common().Args[1]))
 	}
 	vx := c.fn("fat2.TransactionBatch.ValidExtIDs")
 	if ci := mustCallReturnErr(vx, factomPath+"/fat103.Validate", "ValidExtIDs verifies RCD/signature pairs"); ci != nil {
@@ -148,13 +168,15 @@ func propC05(c *Ctx, r *Report) {
 		okEntry := strings.HasSuffix(typePath(a[0]), "TransactionBatch.Entry") || strings.HasSuffix(valuePath(a[0]), ".Entry")
 		// the expected-signers set is filled from every transaction's input address
 		filled := false
-		allInstrs(vx, func(ins ssa.Instruction) {
-			if mu, ok := ins.(*ssa.MapUpdate); ok && sliceHas(a[1], func(v ssa.Value) bool { return v == mu.Map }) {
-				if strings.HasSuffix(typePath(unwrapConv(mu.Key)), "TypedAddressAmountTuple.Address") && innermostLoop(vx, mu.Block()) != nil && everyIterationPasses(innermostLoop(vx, mu.Block()), mu.Block()) {
-					filled = true
+		for _, g := range c.family(vx) { // ValidExtIDs and helpers split off from it
+			allInstrs(g, func(ins ssa.Instruction) {
+				if mu, ok := ins.(*ssa.MapUpdate); ok && sliceHas(a[1], func(v ssa.Value) bool { return v == mu.Map }) {
+					if strings.HasSuffix(typePath(unwrapConv(mu.Key)), "TypedAddressAmountTuple.Address") && innermostLoop(g, mu.Block()) != nil && everyIterationPasses(innermostLoop(g, mu.Block()), mu.Block()) {
+						filled = true
+					}
 				}
-			}
-		})
+			})
+		}
 		r.check(okEntry && filled, "C05-R2/validation-chain", "fat103.Validate(entry, every input address, flag)", c.ipos(ci), "", fmt.Sprintf("entry argument ok=%v, signer set built from every tx.Input.Address=%v", okEntry, filled))
 	}
 
@@ -174,7 +196,7 @@ func propC05(c *Ctx, r *Report) {
 	rcd1, rcde, rall := cval("R_RCD1"), cval("R_RCDe"), cval("R_ALL")
 	act := int64(e.a.get("Fat2RCDEActivation"))
 	for _, h := range []int64{-1, 0, 1, act - 1, act, act + 1, act + 2, int64(e.a.get("V20HeightActivation"))} {
-		sc := &Scenario{Params: map[string]AVal{"height": cInt(h)}, MaxDepth: 0}
+		sc := &Scenario{Params: map[string]AVal{"type:int32": cInt(h)}, MaxDepth: 0}
 		t := newSCCP(c, sc).analyse(vx, nil)
 		r.Scen++
 		want := rcd1
@@ -203,7 +225,7 @@ func propC05(c *Ctx, r *Report) {
 			switch n {
 			case "fat2.NewTransactionBatch":
 				harg = ci.Common().Args[1]
-			case "fat2.(*TransactionBatch).Validate", "fat2.(*TransactionBatch).ValidatePegTx":
+			case "fat2.TransactionBatch.Validate", "fat2.TransactionBatch.ValidatePegTx":
 				if f.Pkg != nil && f.Pkg.Pkg.Name() == "fat2" {
 					continue
 				}
@@ -226,16 +248,16 @@ func propC05(c *Ctx, r *Report) {
 	// R5 revalidation
 	r.rule("C05-R5/revalidation", 1, "held batches are validated again at the executing height")
 	hold := c.fn("node.Pegnetd.ApplyTransactionBatchesInHolding")
-	for _, ex := range findCalls(hold, "node.(*Pegnetd).applyTransactionBatch") {
+	for _, ex := range findCalls(hold, "node.Pegnetd.applyTransactionBatch") {
 		okk := false
-		for _, v := range findCalls(hold, "fat2.(*TransactionBatch).Validate") {
+		for _, v := range findCalls(hold, "fat2.TransactionBatch.Validate") {
 			ev, _ := errValueOf(v)
 			if ev == nil {
 				continue
 			}
 			sameBatch := sliceHas(ex.Common().Args[2], func(x ssa.Value) bool { return x == v.Common().Args[0] }) || v.Common().Args[0] == ex.Common().Args[2] || sameExpr(v.Common().Args[0], ex.Common().Args[2])
 			for _, t := range nilTestsOf(c, ev) {
-				if nilEdgeDom(t, ex.Block()) && sameBatch && valuePath(unwrapConv(v.Common().Args[1])) == "currentHeight" {
+				if nilEdgeDom(t, ex.Block()) && sameBatch && c.isExecHeight(v.Common().Args[1]) {
 					okk = true
 				}
 			}
@@ -264,7 +286,7 @@ func propC05(c *Ctx, r *Report) {
 		// len(uniqueInputs): the map is a local make; bind the builtin len of a map-typed local by a dedicated key
 		sc := &Scenario{Paths: map[string]AVal{"fat2.TransactionBatch.Version": cUint(cs.version)},
 			Lens:  map[string]AVal{"fat2.TransactionBatch.Transactions": cInt(cs.ntx), "<local map>": cInt(cs.nuniq)},
-			Calls: map[string]AVal{"fat2.(*Transaction).Validate": nilVal}, MaxDepth: 0}
+			Calls: map[string]AVal{"fat2.Transaction.Validate": nilVal}, MaxDepth: 0}
 		s := newSCCP(c, sc)
 		st := s.run(vd, nil, 0)
 		acc.absorb(s)
@@ -283,6 +305,56 @@ func propC05(c *Ctx, r *Report) {
 	// one signature, one execution: shared with C06 (replay guard dominance, same table on the block's tx)
 	ruleReplayGuard(c, r, "C05-R7/one-signature-one-execution")
 	ruleReplaySameTx(c, r, buildSQLCat(c), "C05-R7/one-signature-one-execution")
+
+	// R8: what is validated is what the chain delivered
+	r.rule("C05-R8/entry-untouched", 1, "block processing does not rewrite a delivered entry before (or after) validating it")
+	{
+		n := 0
+		for _, f := range sortedFuncs(c.RSync) {
+			if f.Pkg == nil || f.Pkg.Pkg.Path() == factomPath {
+				continue
+			}
+			allInstrs(f, func(ins ssa.Instruction) {
+				st, ok := ins.(*ssa.Store)
+				if !ok {
+					return
+				}
+				fa, ok := st.Addr.(*ssa.FieldAddr)
+				if !ok {
+					return
+				}
+				tp := typePath(fa)
+				if !strings.HasPrefix(tp, "factom.Entry.") {
+					return
+				}
+				n++
+				root := fa.X
+				for {
+					if f2, ok := root.(*ssa.FieldAddr); ok {
+						root = f2.X
+						continue
+					}
+					break
+				}
+				fresh := false
+				if a, ok := root.(*ssa.Alloc); ok {
+					fresh = true
+					for _, rf := range *a.Referrers() {
+						if s2, ok := rf.(*ssa.Store); ok && s2.Addr == a {
+							if _, isConst := s2.Val.(*ssa.Const); !isConst {
+								fresh = false // a copy of an existing entry
+							}
+						}
+					}
+				}
+				r.check(fresh, "C05-R8/entry-untouched", fname(f)+" stores "+tp, c.ipos(st), "the entry is a new local object being rebuilt from stored bytes", "a field of an entry delivered by the chain (or a copy of one) is overwritten on the sync path: signature, salt window and identity are then checked against data the author did not publish")
+			})
+		}
+		r.Extra["entry_field_stores_on_sync_path"] = n
+		if n == 0 {
+			r.okNT("C05-R8/entry-untouched", "no store to a factom.Entry field on the sync path", "-", "")
+		}
+	}
 
 	// dependency advisory → known finding: bytes of the RCD-e signature that are length-checked but never read
 	r.rule("C05/validated-bytes", 1, "every length-checked signature byte is covered by the verification")
